@@ -170,6 +170,16 @@ EXT5={
  "C18":" Every kind's keyword as a parameter value, annotation or body string (bare and quoted) with that kind banned.",
  "C20":" Fresh heirs of every object type of the pool; every selection also with its declarations in the reverse order (use before declaration) as the base document. One open finding (the allOf ancestor in usedUserTypes, the C10 finding seen from here) matched by what changes.",
 }
+EXT6={
+ "C03":" The pair projects also without any option (twice in process, two fresh processes, process vs in-process); two regex types of one pattern.",
+ "C06":" Two-level includes (root -> a -> b) at every nesting of four split points, parentheses anywhere, reduced alphabet, length 2..3.",
+ "C12":" The inheriting schema of every host also with no property of its own.",
+ "C13":" Prefixes that differ in letter case only (24 orders x 9 declaration patterns).",
+ "C16":" H1 reader op keys-stop: an iteration its callback stops after the first element.",
+ "C17":" Unterminated quotes under LF, CRLF and CR.",
+ "C19":" First-segment alphabet with the digits 2 and 0 (escape look-alikes); the declared tag's annotation varies (ordinary, '/...', '@k'): a rejection the ordinary annotation does not cause is a violation.",
+ "C20":" Unused macros holding declarations or pasting a fresh macro add nothing.",
+}
 for k,v in EXT.items():
     CHECKS[k]["text"]+=v
 for k,v in EXT2.items():
@@ -179,6 +189,8 @@ for k,v in EXT3.items():
 for k,v in EXT4.items():
     CHECKS[k]["text"]+=v
 for k,v in EXT5.items():
+    CHECKS[k]["text"]+=v
+for k,v in EXT6.items():
     CHECKS[k]["text"]+=v
 ENGINES=[
  {"name":"E-REFCAT","path":"internal/checks/refcat.go","serves_properties":[],"kind_free_text":"reference compiler (real lexemes -> reference resolver of C06 -> PASTE substitution -> expected interactions, tags, path variables, names, faults) run over fixtures, pool selections and, through a tap, the documents of the generators of C04 / C13 / C19; serves C04 C06 C07 C11 C13 C19 next to their own engines"},
